@@ -984,6 +984,18 @@ def propagate_new_constants(model, module_names: dict) -> list:
             c = _const_node(vals[0])
             if c is not None:
                 consts[(mod.short, name)] = c
+    # a module-level name that some function re-binds (`global _hook; _hook = ..`) or that is stored to from another module
+    # (`mod._hook = ..`) is a variable, not a named constant
+    for mod in model.modules.values():
+        if mod.short.startswith("_typeguard"):
+            continue
+        for x in ast.walk(mod.tree):
+            if isinstance(x, ast.Global):
+                for nm in x.names:
+                    consts.pop((mod.short, nm), None)
+            elif isinstance(x, ast.Attribute) and isinstance(x.ctx, (ast.Store, ast.Del)):
+                for key in [k for k in consts if k[1] == x.attr]:
+                    consts.pop(key, None)
     if not consts:
         return []
     used = set()
